@@ -44,6 +44,7 @@ def run(ctx, rep):
     check_undo(fx, rep)
     check_prewarm(fx, rep)
     check_7702(fx, rep)
+    check_cold_propagation(fx, rep)
     # what a cold / warm access costs: C14's price tables that take the is_cold flag
     import engine
     import c14
@@ -302,6 +303,51 @@ def check_prewarm(fx, rep):
         rep.ok('R3-prewarm', 'warm-set-readers', 'only load_account')
     else:
         rep.violation('R3-prewarm', 'warm-set-readers', 'warm_preloaded_addresses is consulted in %s; only the first insertion of an account (load_account) may use it' % sorted(readers))
+
+
+def check_cold_propagation(fx, rep):
+    """R6: the layers between the journal and the instructions hand the cold flag on unchanged.  In
+    the context functions (balance, code, code_hash, sload, sstore ... of InnerEvmContext / EvmContext
+    / the Host impl) and in JournaledState::{sstore, selfdestruct}, every StateLoad that is built takes
+    its is_cold from the `.is_cold` of the journal load made in the same function; a defaulted
+    StateLoad (is_cold = false) would charge a first access as warm."""
+    LOADS = ('JournaledState::load_account', 'JournaledState::load_code', 'JournaledState::sload',
+             'JournaledState::load_account_delegated', 'InnerEvmContext::load_account', 'InnerEvmContext::sload')
+    n = 0
+    for g in fx.fns_all:
+        nq = g.nq
+        if '::test' in nq or not (nq.startswith('revm::context::') or nq in (JS + 'sstore', JS + 'selfdestruct') or
+                                  (nq.startswith('<revm::') and ' as revm_interpreter::host::Host>' in nq)):
+            continue
+        og = None
+        sites = []
+        for bi, t in g.calls():
+            nm = t.target_fn or t.callee or ''
+            dty = (g.local_ty(t.dest.b) or '') if t.dest is not None else ''
+            if nm.endswith('StateLoad::new') and len(t.args) > 1:
+                sites.append((bi, t.args[1], 'StateLoad::new'))
+            elif nm.endswith('::default') and 'Default' in nm and 'StateLoad' in dty:
+                sites.append((bi, None, 'StateLoad::default()'))
+        for b in g.blocks:
+            if b.cleanup:
+                continue
+            for s_ in b.stmts:
+                if s_.kind == 'assign' and s_.rv is not None and s_.rv.rv == 'agg' and str(s_.rv.d.get('adt', '')).endswith('StateLoad') and len(s_.rv.ops) > 1:
+                    sites.append((b.i, s_.rv.ops[1], 'StateLoad{..}'))
+        for bi, op, what in sites:
+            og = og or Origins(g, fx)
+            n += 1
+            key = nq.split('::')[-1] if '{closure' not in nq else nq.split('::')[-2]
+            if op is None:
+                rep.violation('R6-cold-propagation', key, '%s answers with %s: the cold flag of the access is dropped (a first access would be charged warm)' % (nq, what), g.where(bi))
+                continue
+            oo = og.of_operand(op)
+            ok = bool(oo) and all(o.root[0] == 'call' and o.root[1].endswith(LOADS) and o.path[-1:] == ('.is_cold',) for o in oo)
+            if ok:
+                rep.ok('R6-cold-propagation', key, 'is_cold of the journal load')
+            else:
+                rep.violation('R6-cold-propagation', key, '%s builds a StateLoad whose is_cold is %s, not the is_cold of its journal load' % (nq, [o.render() for o in oo]), g.where(bi))
+    rep.floor('R6-cold-propagation-sites', n, 5)
 
 
 def check_7702(fx, rep):
